@@ -54,6 +54,9 @@ def motions(ground, lam, tier):
                [('translate', -1, [lam, 0., 0.]), ('scale', 0.5), ('rotate', 3, [0., 0., 90.])]]
     for s in (0.01, 0.5, 3.7, 100.):
         M.append([('scale', s)])
+    # the same object scaled more than once (radius and coordinates must accumulate alike)
+    M.append([('scale', 4.), ('scale', 2.5)])
+    M.append([('scale', 0.5), ('translate', 1, [0.2 * lam, 0.1 * lam, 0.]), ('scale', 3.), ('scale', 2.)])
     for seq in two:
         M.append(seq)
         M.append(seq[::-1])     # same keys, options listed in the opposite order
@@ -210,6 +213,16 @@ def evaluate(c):
             viol.append(('DEV-ends-pertag', 'segment ends differ by %.3g*size for %s' % (d, tr)))
         if len(mb.pulses) != len(mc.pulses):
             viol.append(('DEV-pulses-pertag', 'pulse count %d vs %d for %s' % (len(mb.pulses), len(mc.pulses), tr)))
+        else:
+            rb = np.array([sg.geobj.r for g in mb.geo for sg in g.segments])
+            rc = np.array([sg.geobj.r for g in mc.geo for sg in g.segments])
+            if np.abs(rb / rc - 1).max() > 1e-9:
+                viol.append(('DEV-radius-pertag', 'wire radii %s vs %s for %s' % (sorted(set(rb)), sorted(set(rc)), tr)))
+            mb.compute_impedance_matrix()
+            mc.compute_impedance_matrix()
+            dz = float(np.abs(mb.Z - mc.Z).max() / np.abs(mc.Z).max())
+            if dz > 1e-9:
+                viol.append(('DEV-Zmat-pertag', 'impedance matrices differ by %.3g for %s' % (dz, tr)))
         canon.append('tag:%s' % tr)
     und = sorted((e['a'], e['b'], e['n']) for e in c['st'])
     return dict(viol=viol[:8], canon=['%s|%s|%s' % (c['env'], und, x) for x in canon], nontriv=True,
@@ -241,4 +254,16 @@ def per_tag(c, ground):
     def fs(i, w):
         return geom.wire(np.array(w['p1']) * s, np.array(w['p2']) * s, w['n'], w['r'] * s) if i == last - 1 else w
     out.append(([['scale', s, last]], fs))
+    # per-tag scale followed by a whole-structure scale, and a per-tag scale given twice
+    s1, s2 = 1.25, 0.0254
+
+    def fs2(i, w):
+        k = s1 * s2 if i == last - 1 else s2
+        return geom.wire(np.array(w['p1']) * k, np.array(w['p2']) * k, w['n'], w['r'] * k)
+    out.append(([['scale', s1, last], ['scale', s2]], fs2))
+
+    def fs3(i, w):
+        k = 6. if i == 0 else 1.
+        return geom.wire(np.array(w['p1']) * k, np.array(w['p2']) * k, w['n'], w['r'] * k)
+    out.append(([['scale', 2., 1], ['scale', 3., 1]], fs3))
     return out
